@@ -110,11 +110,12 @@ class Resampling(Operator):
             x, self.domain.grid.coord_vectors, self.interp
         )
 
-        out_ctx = nullcontext() if out is None else writable_array(out)
-        with out_ctx as out_arr:
-            return point_collocation(
-                interpolator, self.range.meshgrid, out=out_arr
-            )
+        if out is None:
+            return point_collocation(interpolator, self.range.meshgrid)
+
+        with writable_array(out) as out_arr:
+            point_collocation(interpolator, self.range.meshgrid, out=out_arr)
+        return out
 
     @property
     def inverse(self):
